@@ -11,12 +11,12 @@ RULE = ('n_v in {6,7,10} x process grids (ranks whose block does not start at r-
         'one density call on one rank; non-trivial = rank whose radial block starts at index > 0, or complex storage')
 ASSUMPTIONS = ['pgv.refspline exact weights', 'tolerance 64*eps*||A^-1||*(d+1)*(vMax-vMin)*max|f| per point', 'simmpi layouts']
 
-NPTS_BASE = [6, 5, 4]
+NPTS_BASE = [7, 5, 4]      # 7 radial points: uneven blocks for 2..6 radial processes, larger blocks not always last
 
 
 def cases(tier, seed):
     out = []
-    grids = [(1, 1), (2, 1), (3, 1), (2, 2), (1, 3), (3, 2)] if tier == 'quick' else [(1, 1), (2, 1), (3, 1), (2, 2), (1, 3), (3, 2), (6, 1), (2, 3), (1, 4), (3, 4)]
+    grids = [(1, 1), (2, 1), (3, 1), (4, 1), (5, 1), (2, 2), (1, 3), (3, 2)] if tier == 'quick' else [(1, 1), (2, 1), (3, 1), (4, 1), (5, 1), (6, 1), (2, 2), (1, 3), (3, 2), (4, 2), (2, 3), (1, 4), (5, 2), (3, 4)]
     for nv, g, cplx, vdeg in itertools.product((6, 7, 10), grids, (False, True), (3, 2)):
         if tier == 'quick' and vdeg == 2 and (nv != 7 or g not in ((2, 2), (3, 1))):
             continue
